@@ -69,7 +69,7 @@ func main() {
 // Only the packages whose goroutines share state: stores, events, baseorbitdb, pubsub adapters,
 // access controllers, cache. Pure helpers are left alone.
 func instrumentable(rel string) bool {
-	for _, pre := range []string{"stores/", "events/", "baseorbitdb/", "pubsub/", "accesscontroller/", "cache/", "orbitdb.go"} {
+	for _, pre := range []string{"stores/", "events/", "baseorbitdb/", "pubsub/", "accesscontroller/", "cache/", "messagemarshaler/", "orbitdb.go"} {
 		if strings.HasPrefix(filepath.ToSlash(rel), pre) {
 			return true
 		}
